@@ -2,7 +2,7 @@
    that was run on the real code and the implementation's observation.  [check_corr] compares the observation with the
    model; [check_spec] evaluates the property itself on the observation (pulse preserved, duration preserved,
    postcondition, errors only where the rewrite is entitled to fail and without changing the pulse). *)
-From Coq Require Import ZArith QArith Qround Bool List.
+From Coq Require Import ZArith QArith Qround Qabs Bool List.
 Require Import QV.common.Util QV.C06.Model QV.C06.Spec.
 Import ListNotations.
 Open Scope Z_scope.
@@ -32,6 +32,14 @@ Inductive case :=
 | CSpecOnly (input : tree) (path : list nat) (o : opk) (impl : obs)
        (* programs with volatile repetition counts: the model does not cover them (its split/merge decisions look at plain
           integers), so only the specification is evaluated on the implementation's observation *)
+| CDec (input : tree) (path : list nat) (o : opk) (impl : obs) (sr : Q) (ramps : list (N * (Q * Q)))
+       (before after : list (option Q))
+       (* decimal stream: leaf durations that are no binary fractions (k/10, k/3 ...).  The tree part is exact (durations
+          are rationals in the code as well) and is checked like [CRewrite]; in addition channel 0 of
+          to_waveform(program) was sampled at the grid points k / sr (given to the code as correctly rounded doubles)
+          before and after the rewrite.  Those samples are binary64 results: they are compared with the exact rational
+          voltage of the input program under the declared absolute tolerance [dec_tol]; atom [i] is a linear ramp from
+          [v0] (local time 0) to [v1] (local time = its duration) for (i, (v0, v1)) in [ramps]. None = NaN. *)
 | CToWf (input : tree) (impl : result wf)
 | CSfg (n m : Z) (impl : result Z)
 | CCrash.
@@ -140,6 +148,7 @@ Definition check_corr (c : case) : bool :=
       | Err _ => false
       end
   | CSpecOnly _ _ _ _ => true
+  | CDec input path o impl _ _ _ _ => corr_step input path o impl     (* the samples are no model claim: spec only *)
   | CToWf input impl => result_wf_eqb (to_waveform input) impl
   | CSfg n m impl => result_Z_eqb (smallest_factor_ge n m) impl
   | CCrash => false
@@ -205,6 +214,43 @@ Definition spec_step (vol : bool) (input : tree) (path : list nat) (o : opk) (im
       && Qeq_bool (duration after) (duration input)
   end.
 
+(* ---- decimal stream: exact voltage of channel 0 at time t (half-open pieces, junction belongs to the later piece) *)
+Definition dec_tol : Q := 1 # 1073741824.      (* 2^-30 *)
+
+Fixpoint assoc {A} (k : N) (l : list (N * A)) : option A :=
+  match l with [] => None | (k', a) :: r => if N.eqb k k' then Some a else assoc k r end.
+
+Fixpoint volt_at (ramps : list (N * (Q * Q))) (l : list piece) (t : Q) : option Q :=
+  match l with
+  | [] => None
+  | p :: r =>
+      if Qlt_le_dec t (pdur p) then
+        match p with
+        | PAtom i d => match assoc i ramps with
+                       | Some (v0, v1) => Some (v0 + (v1 - v0) * t / d)%Q
+                       | None => None
+                       end
+        | PConst _ v => assoc 0%N v
+        end
+      else volt_at ramps r (Qred (t - pdur p))
+  end.
+
+Fixpoint samples_ok (ramps : list (N * (Q * Q))) (pcs : list piece) (sr : Q) (k : Z) (l : list (option Q)) : bool :=
+  match l with
+  | [] => true
+  | x :: r =>
+      match x, volt_at ramps pcs (Qred (inject_Z k / sr)) with
+      | Some v, Some e => Qle_bool (Qabs (v - e)) dec_tol
+      | _, _ => false
+      end && samples_ok ramps pcs sr (k + 1) r
+  end.
+
+(* the grid covers [0, duration): floor(duration * sr) points (sr > 0) *)
+Definition dec_samples_ok (ramps : list (N * (Q * Q))) (input : tree) (sr : Q) (l : list (option Q)) : bool :=
+  Qle_bool 0 sr && negb (Qeq_bool sr 0)
+  && (Z.of_nat (length l) =? Qfloor (duration input * sr))
+  && samples_ok ramps (pieces input) sr 0 l.
+
 Definition check_spec (c : case) : bool :=
   match c with
   | CRewrite input path o impl => spec_step false input path o impl
@@ -212,6 +258,8 @@ Definition check_spec (c : case) : bool :=
       pieces_equivb (pieces mid) (pieces input) && Qeq_bool (duration mid) (duration input)
       && spec_step false mid path o impl
   | CSpecOnly input path o impl => spec_step true input path o impl
+  | CDec input path o impl sr ramps before after =>
+      spec_step false input path o impl && dec_samples_ok ramps input sr before && dec_samples_ok ramps input sr after
   | CToWf input impl =>
       match impl with
       | Ok x => pieces_equivb (wf_pieces x) (pieces input) && Qeq_bool (wf_dur x) (duration input)
